@@ -14,8 +14,8 @@
    which parse the packet survives.  The Go harness renders such packets to real IPv4/IPv6 bytes, feeds the real
    MultiCoalescer, and parses what the coalescer hands to its GSOWriter back into this vocabulary
    (corr/Coalesce_corr.v).  What "parse succeeds" means byte-wise (IHL = 20, no fragment bits, total length inside
-   the buffer, L4 header at byte 40 for IPv6, TCP data offset in 20..60 and inside the packet, UDP length in
-   8..available) is the harness' reference classifier; a change of those conditions in nebula shows up as a
+   the buffer, L4 header at byte 40 for IPv6, TCP data offset in 20..60 and inside the packet, UDP length =
+   the IP payload length, >= 8) is the harness' reference classifier; a change of those conditions in nebula shows up as a
    model/implementation difference.
 
    The two coalescers are the same machine up to a handful of protocol specific decisions; the model is that
@@ -72,7 +72,6 @@ Record pkt := mkPkt {
   p_ipck : N;           (* IPv4 header checksum field as carried *)
   p_l4ck : N;           (* TCP / UDP checksum field as carried *)
   p_pay : list N;       (* L4 payload: up to the IP length (TCP) / the UDP length (UDP) *)
-  p_slack : list N;     (* UDP only: bytes between the end of the UDP datagram and the IP length *)
   p_trail : list N;     (* bytes in the buffer behind the IP-declared length *)
   p_raw : list N        (* unparseable shapes: the whole packet, opaque *)
 }.
@@ -93,7 +92,7 @@ Definition pkt_eqb (a b : pkt) : bool :=
   &&& (p_seq a =? p_seq b) &&& (p_ack a =? p_ack b) &&& (p_x2 a =? p_x2 b) &&& (p_flags a =? p_flags b)
   &&& (p_win a =? p_win b) &&& (p_urg a =? p_urg b) &&& nlist_eqb (p_opts a) (p_opts b)
   &&& (p_ipck a =? p_ipck b) &&& (p_l4ck a =? p_l4ck b)
-  &&& nlist_eqb (p_pay a) (p_pay b) &&& nlist_eqb (p_slack a) (p_slack b) &&& nlist_eqb (p_trail a) (p_trail b)
+  &&& nlist_eqb (p_pay a) (p_pay b) &&& nlist_eqb (p_trail a) (p_trail b)
   &&& nlist_eqb (p_raw a) (p_raw b).
 
 (* The equivalence of the property: equal except the fields the kernel rewrites when it segments a superpacket
@@ -108,7 +107,7 @@ Definition approxb (a b : pkt) : bool :=
   &&& ((p_df a &&& negb (p_v6 a)) || (p_id a =? p_id b))
   &&& (p_seq a =? p_seq b) &&& (p_ack a =? p_ack b) &&& (p_x2 a =? p_x2 b) &&& (p_flags a =? p_flags b)
   &&& (p_win a =? p_win b) &&& (p_urg a =? p_urg b) &&& nlist_eqb (p_opts a) (p_opts b)
-  &&& nlist_eqb (p_pay a) (p_pay b) &&& nlist_eqb (p_slack a) (p_slack b)
+  &&& nlist_eqb (p_pay a) (p_pay b)
   &&& nlist_eqb (p_raw a) (p_raw b).
 Definition approx (a b : pkt) : Prop := approxb a b = true.
 
@@ -116,23 +115,23 @@ Definition approx (a b : pkt) : Prop := approxb a b = true.
 Definition with_flags (p : pkt) (f : N) : pkt :=
   mkPkt (p_proto p) (p_shape p) (p_v6 p) (p_src p) (p_dst p) (p_sport p) (p_dport p) (p_tos p) (p_flow p) (p_ttl p)
         (p_nxt p) (p_df p) (p_rsv p) (p_id p) (p_seq p) (p_ack p) (p_x2 p) f (p_win p) (p_urg p) (p_opts p)
-        (p_ipck p) (p_l4ck p) (p_pay p) (p_slack p) (p_trail p) (p_raw p).
+        (p_ipck p) (p_l4ck p) (p_pay p) (p_trail p) (p_raw p).
 Definition with_seq (p : pkt) (s : N) : pkt :=
   mkPkt (p_proto p) (p_shape p) (p_v6 p) (p_src p) (p_dst p) (p_sport p) (p_dport p) (p_tos p) (p_flow p) (p_ttl p)
         (p_nxt p) (p_df p) (p_rsv p) (p_id p) s (p_ack p) (p_x2 p) (p_flags p) (p_win p) (p_urg p) (p_opts p)
-        (p_ipck p) (p_l4ck p) (p_pay p) (p_slack p) (p_trail p) (p_raw p).
+        (p_ipck p) (p_l4ck p) (p_pay p) (p_trail p) (p_raw p).
 Definition with_id (p : pkt) (i : N) : pkt :=
   mkPkt (p_proto p) (p_shape p) (p_v6 p) (p_src p) (p_dst p) (p_sport p) (p_dport p) (p_tos p) (p_flow p) (p_ttl p)
         (p_nxt p) (p_df p) (p_rsv p) i (p_seq p) (p_ack p) (p_x2 p) (p_flags p) (p_win p) (p_urg p) (p_opts p)
-        (p_ipck p) (p_l4ck p) (p_pay p) (p_slack p) (p_trail p) (p_raw p).
+        (p_ipck p) (p_l4ck p) (p_pay p) (p_trail p) (p_raw p).
 Definition with_cks (p : pkt) (ipck l4ck : N) : pkt :=
   mkPkt (p_proto p) (p_shape p) (p_v6 p) (p_src p) (p_dst p) (p_sport p) (p_dport p) (p_tos p) (p_flow p) (p_ttl p)
         (p_nxt p) (p_df p) (p_rsv p) (p_id p) (p_seq p) (p_ack p) (p_x2 p) (p_flags p) (p_win p) (p_urg p) (p_opts p)
-        ipck l4ck (p_pay p) (p_slack p) (p_trail p) (p_raw p).
-Definition with_body (p : pkt) (pay slack trail : list N) : pkt :=
+        ipck l4ck (p_pay p) (p_trail p) (p_raw p).
+Definition with_body (p : pkt) (pay trail : list N) : pkt :=
   mkPkt (p_proto p) (p_shape p) (p_v6 p) (p_src p) (p_dst p) (p_sport p) (p_dport p) (p_tos p) (p_flow p) (p_ttl p)
         (p_nxt p) (p_df p) (p_rsv p) (p_id p) (p_seq p) (p_ack p) (p_x2 p) (p_flags p) (p_win p) (p_urg p) (p_opts p)
-        (p_ipck p) (p_l4ck p) pay slack trail (p_raw p).
+        (p_ipck p) (p_l4ck p) pay trail (p_raw p).
 
 (* flowKey {src, dst, sport, dport, isV6} *)
 Definition fkey := (bool * N * N * N * N)%type.
@@ -407,7 +406,7 @@ Definition render (pol : policy) (s : slot) : gso :=
   let ipck := if p_v6 sd then p_ipck sd else ipv4_hdr_checksum sd lenfield in
   let l4ck := fold_once_no_invert (pseudo_sum sd (pol_l4proto pol) l4len) in
   mkGso (pol_gproto pol)
-        (with_body (with_cks (with_flags sd fl) ipck l4ck) [] [] [])
+        (with_body (with_cks (with_flags sd fl) ipck l4ck) [] [])
         lenfield
         (if pol_gproto pol =? 2 then w16 l4len else 0)
         (s_pays s).
@@ -489,7 +488,7 @@ Definition seg_pkt (g : gso) (gs i : N) (first last : bool) (c : list N) : pkt :
   let h1 := if g_proto g =? 1
             then with_seq (with_flags h (seg_flags (p_flags h) first last)) (w32 (p_seq h + i * gs))
             else h in
-  with_body (with_cks (with_id h1 (seg_id h i)) 0 0) c [] [].
+  with_body (with_cks (with_id h1 (seg_id h i)) 0 0) c [].
 
 Fixpoint segs_from (g : gso) (gs i : N) (cs : list (list N)) : list pkt :=
   match cs with
